@@ -72,6 +72,7 @@ fn gen_stepwise(ch: &mut Ch, planners: &[PlannerTag], tier: Tier, big_radius: bo
         max_obst: 3,
         rng_goal: 0.3,
         big_radius,
+        p_nonconvex: 0.25,
         ..Default::default()
     };
     let mut c = gen_plan_case(ch, &prof);
@@ -361,6 +362,8 @@ impl C16GoalBias {
                     radius: -1.0,
                     rng_sampler: false,
                 },
+                extra_starts: vec![],
+                no_start: false,
             }],
             planner: case.planner,
             step: a.step * 0.2,
@@ -373,6 +376,7 @@ impl C16GoalBias {
             goal_fail_at: None,
             empty_starts: false,
             query_cap: usize::MAX,
+            world2: None,
         };
         let t = run_case_dyn(&pc).ok()?;
         let st = t.steps.last()?;
